@@ -184,13 +184,50 @@ class C03(GenCheck):
             values[f"m{k}"] = 0
         decls.append(("end", "local", "B"))
         values["end"] = 0
-        return {"decls": decls, "values": values, "reginit": reginit, "regs": regs, "stmts": stmts}
+        case = {"decls": decls, "values": values, "reginit": reginit, "regs": regs, "stmts": stmts}
+        import json
+        text = json.dumps(stmts)
+        cand = [(n, f) for n, st_, f in decls if st_ == "local" and f in ("b", "h", "i") and json.dumps(["v", n]) in text]
+        if cand and rng.random() < 0.5:
+            n, f = rng.choice(cand)
+            if rng.random() < 0.7 and values[n] >= 0:
+                values[n] = -values[n] - 1 if values[n] < (1 << (8 * dsl.fmt_size(f) - 1)) else -1
+            case["vm"] = [n, [r for r in (6, 7, 8) if r not in reginit][0], rng.choice([0, 8, 24])]
+        return case
 
     def gen_cases(self):
         return [self.make_case(self.rng) for _ in range(400 if self.tier == "quick" else 6000)]
 
     def stmts(self, case):
-        return [["set", ["r", "r", no], ["c", v]] for no, v in sorted(case["reginit"].items())] + case["stmts"]
+        pre = [["set", ["r", "r", no], ["c", v]] for no, v in sorted(case["reginit"].items())]
+        vm = case.get("vm")
+        if not vm:
+            return pre + case["stmts"]
+        # the reads of one local variable go through a computed address (stack pointer + register + constant); model and oracle see
+        # the plain variable
+
+        def ex(x):
+            if not isinstance(x, list) or not x:
+                return x
+            if x[0] == "v" and len(x) == 2 and x[1] == vm[0]:
+                return ["vm", vm[0], vm[1], vm[2]]
+            if x[0] in ("c", "v", "r"):
+                return x
+            if x[0] == "xcmp":
+                return [x[0], x[1], x[2], ex(x[3])]
+            return [x[0]] + [ex(y) for y in x[1:]]
+
+        def st(l):
+            out = []
+            for q in l:
+                if q[0] == "if":
+                    out.append(["if", ex(q[1]), st(q[2]), (st(q[3]) if q[3] is not None else None)] + list(q[4:]))
+                elif q[0] == "set":
+                    out.append(["set", q[1], ex(q[2])])
+                else:
+                    out.append(q)
+            return out
+        return pre + [["set", ["r", "r", vm[1]], ["c", vm[2]]]] + st(case["stmts"])
 
     def prepare(self, cases):
         return self.execute(cases)
